@@ -6350,7 +6350,7 @@ fn eval_built_in_method_call(
                     return Err((
                         RestoreValues(saved_values),
                         EvalError::Exception(ExceptionInfo {
-                            position: arg_positions[1].clone(),
+                            position: arg_positions[0].clone(),
                             message: format_type_error(
                                 &TypeName { text: "Int".into() },
                                 &arg_values[0],
@@ -6372,7 +6372,7 @@ fn eval_built_in_method_call(
                     return Err((
                         RestoreValues(saved_values),
                         EvalError::Exception(ExceptionInfo {
-                            position: arg_positions[2].clone(),
+                            position: arg_positions[1].clone(),
                             message: format_type_error(
                                 &TypeName { text: "Int".into() },
                                 &arg_values[1],
